@@ -1698,4 +1698,353 @@ theorem replace_atomic (fuel : Nat) (w : W) (p old new : Nat) (hinv : Inv w.g)
     rw [if_neg hk] at herr
     exact compReplace_atomic fuel w p old new hinv herr
 
+/-! ## partial statements for the tree as it is -/
+
+/-- the copy never meets a pair that is connected already (then the pinned log is faithful) -/
+def freshTargets (g : G) (my : Option Nat) (hard : Bool) : List Nat → Bool
+  | [] => true
+  | t :: ts =>
+    match my with
+    | none => if hard then true else freshTargets g my hard ts
+    | some m =>
+      if t ∈ g.conns m then false
+      else
+        match connect1 g m t with
+        | (g', .ok) => freshTargets g' my hard ts
+        | (g', _) => if hard then true else freshTargets g' my hard ts
+
+def freshPairs (g : G) (hard : Bool) : List (Option Nat × Nat) → Bool
+  | [] => true
+  | (my, oc) :: ps =>
+    freshTargets g my hard (g.conns oc) &&
+      (match copyTargets true g my hard (g.conns oc) [] with
+       | (_, _, true) => true
+       | (g', _, false) => freshPairs g' hard ps)
+
+theorem copyTargets_fresh (my : Option Nat) (hard : Bool) : ∀ (ts : List Nat) (g : G) (log : List (Nat × Nat)),
+    freshTargets g my hard ts = true →
+    copyTargets false g my hard ts log = copyTargets true g my hard ts log := by
+  intro ts
+  induction ts with
+  | nil => intro g log _; rfl
+  | cons t ts ih =>
+    intro g log h
+    unfold freshTargets at h
+    unfold copyTargets
+    cases my with
+    | none =>
+      dsimp only at h ⊢
+      split
+      · rfl
+      · rename_i hh; rw [if_neg hh] at h; exact ih g log h
+    | some m =>
+      dsimp only at h ⊢
+      by_cases hin : t ∈ g.conns m
+      · rw [if_pos hin] at h; cases h
+      · rw [if_neg hin] at h
+        simp only [hin, decide_false, Bool.and_false, Bool.false_eq_true, if_false]
+        generalize connect1 g m t = r at h ⊢
+        obtain ⟨g', res⟩ := r
+        cases res with
+        | ok => exact ih g' _ h
+        | typeErr =>
+          dsimp only at h ⊢
+          split
+          · rfl
+          · rename_i hh; rw [if_neg hh] at h; exact ih g' log h
+        | connErr =>
+          dsimp only at h ⊢
+          split
+          · rfl
+          · rename_i hh; rw [if_neg hh] at h; exact ih g' log h
+
+/-- the graph and the flag of the copy loop do not depend on the log -/
+theorem copyTargets_log_irrelevant (onlyNew : Bool) (my : Option Nat) (hard : Bool) :
+    ∀ (ts : List Nat) (g : G) (log log' : List (Nat × Nat)),
+      (copyTargets onlyNew g my hard ts log).1 = (copyTargets onlyNew g my hard ts log').1 ∧
+      (copyTargets onlyNew g my hard ts log).2.2 = (copyTargets onlyNew g my hard ts log').2.2 := by
+  intro ts
+  induction ts with
+  | nil => intro g log log'; exact ⟨rfl, rfl⟩
+  | cons t ts ih =>
+    intro g log log'
+    unfold copyTargets
+    cases my with
+    | none =>
+      dsimp only
+      split
+      · exact ⟨rfl, rfl⟩
+      · exact ih g log log'
+    | some m =>
+      dsimp only
+      generalize connect1 g m t = r
+      obtain ⟨g', res⟩ := r
+      cases res with
+      | ok => exact ih g' _ _
+      | typeErr => dsimp only; split
+                   · exact ⟨rfl, rfl⟩
+                   · exact ih g' log log'
+      | connErr => dsimp only; split
+                   · exact ⟨rfl, rfl⟩
+                   · exact ih g' log log'
+
+theorem copyPairs_fresh (hard : Bool) : ∀ (ps : List (Option Nat × Nat)) (g : G) (log : List (Nat × Nat)),
+    freshPairs g hard ps = true → copyPairs false g hard ps log = copyPairs true g hard ps log := by
+  intro ps
+  induction ps with
+  | nil => intro g log _; rfl
+  | cons q qs ih =>
+    intro g log h
+    obtain ⟨my, oc⟩ := q
+    unfold freshPairs at h
+    simp only [Bool.and_eq_true] at h
+    unfold copyPairs
+    rw [copyTargets_fresh my hard (g.conns oc) g log h.1]
+    have hirr := copyTargets_log_irrelevant true my hard (g.conns oc) g log []
+    generalize copyTargets true g my hard (g.conns oc) log = r at hirr ⊢
+    obtain ⟨g', log', fl⟩ := r
+    have h2 := h.2
+    generalize copyTargets true g my hard (g.conns oc) [] = r0 at hirr h2
+    obtain ⟨g0, log0, fl0⟩ := r0
+    simp only at hirr
+    obtain ⟨rfl, rfl⟩ := hirr
+    cases fl with
+    | true => rfl
+    | false => exact ih g' log' h2
+
+/-- linksOf of a composite that is not a workflow only reads the tables and the links -/
+theorem linksOf_congr (w w2 : W) (p old new : Nat) (hk : w.t.kind p ≠ .workflow) (ht : w2.t = w.t)
+    (hr : w2.recv = w.recv) (hio : w2.io = w.io) (hc : w2.clab = w.clab) :
+    linksOf w2 p old new = linksOf w p old new := by
+  have hlin : ∀ ss, linksIn w2 old new ss = linksIn w old new ss := by
+    intro ss
+    induction ss with
+    | nil => rfl
+    | cons s ss ih => unfold linksIn; simp only [hr, hio, hc, findLab, ih]
+  have hlout : ∀ cs, linksOut w2 p new cs = linksOut w p new cs := by
+    intro cs
+    induction cs with
+    | nil => rfl
+    | cons c cs ih => unfold linksOut; simp only [hr, hio, hc, findLab, ih]
+  unfold linksOf
+  rw [ht, if_neg hk, if_neg hk, hlin, hlout, hio]
+
+theorem forge_ok_shape (fuel : Nat) : ∀ (links : List (Nat × Nat)) (w w' : W),
+    forge fuel w links = (w', .ok) → ∃ f, w' = { w with val := f, recv := overwrite w.recv links } := by
+  intro links
+  induction links with
+  | nil =>
+    intro w w' h
+    simp only [forge, Prod.mk.injEq, and_true] at h
+    exact ⟨w.val, by rw [← h]; rfl⟩
+  | cons l ls ih =>
+    intro w w' h
+    obtain ⟨s, r⟩ := l
+    unfold forge at h
+    split at h
+    · simp at h
+    · cases hs : setValF w fuel r (w.val s) with
+      | none => simp [hs] at h
+      | some w2 =>
+        simp only [hs] at h
+        obtain ⟨f2, hf2⟩ := setValF_val w fuel r _ w2 hs
+        subst hf2
+        obtain ⟨f, hf⟩ := ih _ w' h
+        exact ⟨f, by rw [hf]; rfl⟩
+
+theorem copyPairs_inv (onlyNew hard : Bool) (ps : List (Option Nat × Nat)) (g : G) (h : Inv g) :
+    Inv (copyPairs onlyNew g hard ps []).1 := by
+  have := copyPairs_ind (fun g _ => Inv g) onlyNew hard ps
+    (fun g log my oc _ hP =>
+      copyTargets_ind (fun g _ => Inv g) onlyNew my hard (g.conns oc)
+        (fun g log m t _ _ _ hP => hP)
+        (fun g log m t _ _ _ _ he hP => by
+          have hi := connect1_inv g m t hP
+          rw [he] at hi; exact hi)
+        (g.conns oc) (fun _ h => h) g log hP)
+    ps (fun _ h => h) g [] h
+  exact this
+
+theorem cutAll_noop : ∀ (cs : List Nat) (g : G), (∀ c ∈ cs, g.conns c = []) → cutAll g cs = (g, []) := by
+  intro cs
+  induction cs with
+  | nil => intro g _; rfl
+  | cons c cs ih =>
+    intro g h
+    unfold cutAll
+    have hc := h c (List.mem_cons_self ..)
+    have : disconnectAll g c = g := by simp [disconnectAll, hc, disconnect]
+    rw [this, ih g (fun c' hc' => h c' (List.mem_cons_of_mem _ hc')), hc]
+    rfl
+
+/-- the composite-level replacement in a tree that has the ownership pre-check but not the link
+pre-check (`Cfg.current`): all-or-nothing when the composite holds no value link to the replaced
+node and the copy log is faithful -/
+theorem compReplace_atomic_partial (cfg : Cfg) (hap : cfg.adoptPrecheck = true) (hlp : cfg.linkPrecheck = false)
+    (w : W) (p old new : Nat) (hinv : Inv w.g) (hk : w.t.kind p ≠ .workflow)
+    (hlinks : linksOf w p old new = .ok [])
+    (hfresh : freshPairs w.g true (ioPairs w new old) = true)
+    (herr : (compReplace cfg w p old new).2 ≠ .ok) : (compReplace cfg w p old new).1 = w := by
+  unfold compReplace at herr ⊢
+  by_cases h1 : w.t.parent old ≠ some p
+  · rw [if_pos h1]
+  · rw [if_neg h1] at herr ⊢
+    by_cases h2 : w.t.parent new ≠ none
+    · rw [if_pos h2]
+    · rw [if_neg h2] at herr ⊢
+      by_cases h3 : nodeConnected w new = true
+      · rw [if_pos h3]
+      · rw [if_neg h3] at herr ⊢
+        simp only [hap, hlp, if_true, Bool.false_eq_true, if_false] at herr ⊢
+        cases hpre : adoptPre cfg.fuel w.t p new with
+        | ok =>
+          simp only [hpre] at herr ⊢
+          have hlog : copyPairs cfg.onlyNewUndo w.g true (ioPairs w new old) []
+              = copyPairs true w.g true (ioPairs w new old) [] := by
+            cases cfg.onlyNewUndo with
+            | true => rfl
+            | false => exact copyPairs_fresh true _ w.g [] hfresh
+          have hat := copyIo_atomic_soft' cfg w new old true hinv hlog
+          have hsh := copyIo_ok_shape cfg w new old true false
+          generalize copyIo cfg w new old true false = r at herr hat hsh ⊢
+          obtain ⟨w1, e⟩ := r
+          cases e with
+          | ok =>
+            exfalso
+            obtain ⟨f, hf⟩ := hsh w1 rfl
+            apply herr
+            dsimp only
+            have hl2 : linksOf (seated cfg w1 new old) p old new = .ok [] := by
+              rw [← hlinks]
+              apply linksOf_congr w _ p old new hk
+              · rw [seated_t, hf]
+              · unfold seated; split <;> rw [hf]
+              · unfold seated; split <;> rw [hf]
+              · unfold seated; split <;> rw [hf]
+            rw [hl2]
+            dsimp only
+            unfold commit
+            have hok : adoptRefusal cfg.fuel
+                (swapLabels (Tree.removeCore0 (seated cfg w1 new old).t p old) new old) p new = .ok := by
+              rw [seated_t]
+              have : w1.t = w.t := by rw [hf]
+              rw [this]
+              exact adoptRefusal_after_removal cfg.fuel w.t p old new ((adoptPre_ok_iff _ _ _ _).mp hpre)
+            simp only [hok, hlp, Bool.false_eq_true, if_false, forge]
+          | _ => exact hat (by simp)
+        | _ => rfl
+
+/-- flow derivation in every variant: when the children carry no run wiring yet, a graph that
+cannot be ordered leaves everything as it was -/
+theorem dag_atomic_partial (cfg : Cfg) (w : W) (p : Nat) (up : Nat → List Nat) (start : List Nat)
+    (hnw : ∀ c ∈ cutChans w (Tree.vals (w.t.children p)), w.g.conns c = [])
+    (herr : (dag cfg w p up start).2 ≠ .ok) (hnc : (dag cfg w p up start).2 ≠ .connErr) :
+    (dag cfg w p up start).1 = w := by
+  unfold dag at herr hnc ⊢
+  dsimp only at herr hnc ⊢
+  rw [cutAll_noop _ _ hnw] at herr hnc ⊢
+  have hrec : ∀ e, dagRecover cfg w (cutChans w (Tree.vals (w.t.children p))) w.g [] e = (w, e) := by
+    intro e
+    unfold dagRecover
+    split
+    · rw [restoreLists_eq w.g w.g _ (.refl _) (fun _ _ => rfl)]
+    · simp [reconnect]
+  split
+  · rfl
+  · rename_i hne
+    rw [if_neg hne] at herr hnc
+    cases hd : digraphErr w (Tree.vals (w.t.children p)) (Tree.vals (w.t.children p)) with
+    | some e => simp only [hrec]
+    | none =>
+      simp only [hd] at herr hnc ⊢
+      split
+      · simp only [hrec]
+      · rename_i hpeel
+        rw [if_neg hpeel] at herr hnc
+        split
+        · rfl
+        · rename_i hup
+          rw [if_neg hup] at herr hnc
+          generalize wire w up w.g (Tree.vals (w.t.children p)) = r at herr hnc ⊢
+          obtain ⟨g2, res⟩ := r
+          cases res with
+          | ok =>
+            dsimp only at herr ⊢
+            split
+            · rename_i hs; rw [if_pos hs] at herr; exact absurd rfl herr
+            · rfl
+          | typeErr =>
+            exfalso
+            apply hnc
+            simp only [dagRecover]
+            split
+            · rfl
+            · split <;> rfl
+          | connErr =>
+            exfalso
+            apply hnc
+            simp only [dagRecover]
+            split
+            · rfl
+            · split <;> rfl
+
+/-- the shape of a successful replacement in a tree without the link pre-check and without the
+seat (pinned / current) -/
+theorem compReplace_ok_shape_plain (cfg : Cfg) (hlp : cfg.linkPrecheck = false) (hpos : cfg.positional = false)
+    (w : W) (p old new : Nat) (w' : W) (h : compReplace cfg w p old new = (w', .ok)) :
+    w.t.parent old = some p ∧ w.t.parent new = none ∧
+    ∃ links f,
+      linksOf { w with g := (copyPairs cfg.onlyNewUndo w.g true (ioPairs w new old) []).1, val := f } p old new
+        = .ok links ∧
+      w'.t = tAfter w.t p old new ∧
+      w'.g = disconnectChans (copyPairs cfg.onlyNewUndo w.g true (ioPairs w new old) []).1 (w.io old).all ∧
+      w'.recv = overwrite w.recv links := by
+  unfold compReplace at h
+  by_cases h1 : w.t.parent old ≠ some p
+  · rw [if_pos h1] at h; simp at h
+  · rw [if_neg h1] at h
+    by_cases h2 : w.t.parent new ≠ none
+    · rw [if_pos h2] at h; simp at h
+    · rw [if_neg h2] at h
+      by_cases h3 : nodeConnected w new = true
+      · rw [if_pos h3] at h; simp at h
+      · rw [if_neg h3] at h
+        simp only [hlp, Bool.false_eq_true, if_false] at h
+        generalize hpre : (if cfg.adoptPrecheck = true then adoptPre cfg.fuel w.t p new else Err.ok) = pre at h
+        cases pre with
+        | ok =>
+          dsimp only at h
+          have hsh := copyIo_ok_shape cfg w new old true false
+          generalize copyIo cfg w new old true false = r at h hsh
+          obtain ⟨w1, e⟩ := r
+          cases e with
+          | ok =>
+            obtain ⟨f, hf⟩ := hsh w1 rfl
+            dsimp only at h
+            have hseat : seated cfg w1 new old = w1 := by simp [seated, hpos]
+            rw [hseat] at h
+            cases hl : linksOf w1 p old new with
+            | error e =>
+              exfalso
+              simp only [hl, Prod.mk.injEq] at h
+              exact linksOf_error_ne_ok w1 p old new e hl h.2
+            | ok links =>
+              simp only [hl] at h
+              unfold commit at h
+              dsimp only at h
+              split at h
+              · simp only [hlp, Bool.false_eq_true, if_false] at h
+                obtain ⟨f2, hf2⟩ := forge_ok_shape cfg.fuel links _ w' h
+                subst hf
+                refine ⟨by simpa using h1, by simpa using h2, links, f, hl, ?_, ?_, ?_⟩
+                · rw [hf2]; unfold tAfter; simp only [decide_eq_true_eq]
+                · rw [hf2]
+                · rw [hf2]
+              · exfalso
+                simp only [Prod.mk.injEq] at h
+                rename_i hne
+                exact hne h.2
+          | _ => simp at h
+        | _ => simp at h
+
 end PwVerif.Edit
